@@ -1424,32 +1424,32 @@ FINDINGS = [
     {"status": "known", "key": "identifier-shadowed-by-constant",
      "what": "a free variable whose name is a constant of the current theory prints as that name and parses back as the constant "
              "(one namespace in the concrete syntax; no small fix)"},
-    {"status": "fixed", "key": "roundtrip:operand-priority", "commit": "b85b923",
+    {"status": "fixed", "key": "roundtrip:operand-priority", "commit": "5db1677",
      "what": "printer priorities in syntax/operator.py disagreed with the grammar ladder: `ys @ (x # xs)` printed `ys @ x # xs`, `(~A) Mem S` printed "
              "`~A Mem S`, `(A > B) Mem S` printed `A > B Mem S`, `INT (UN S)` printed `INT UN S`"},
-    {"status": "fixed", "key": "roundtrip:numeral-atom", "commit": "9fd5848",
+    {"status": "fixed", "key": "roundtrip:numeral-atom", "commit": "30fcdf5",
      "what": "`f (of_nat 1)` printed `f of_nat 1`, `x * (1 / 0)` printed `x * 1 / 0` (terms that merely evaluate to a natural number were treated as atoms)"},
-    {"status": "fixed", "key": "roundtrip:extra-arguments", "commit": "cfdb887",
+    {"status": "fixed", "key": "roundtrip:extra-arguments", "commit": "d4abfe2",
      "what": "a prefix operator or binder constant applied to more than one argument lost arguments: `uminus f x` printed `-x`, `The P (%k. t)` printed `THE k. t`"},
-    {"status": "fixed", "key": "roundtrip:annotation-on-operator", "commit": "c122402",
+    {"status": "fixed", "key": "roundtrip:annotation-on-operator", "commit": "4679e71",
      "what": "infer_printed_type chose the head constant of an operator application for the type annotation, which the printer cannot show: "
              "`-(netlimit (The trivial_limit))` printed without any annotation and did not parse"},
-    {"status": "fixed", "key": "roundtrip:bound-name-is-constant", "commit": "a1e980b",
+    {"status": "fixed", "key": "roundtrip:bound-name-is-constant", "commit": "d556ae7",
      "what": "the variant name chosen for a bound variable could be a constant of the theory (theory hoare: `P (%P. q P)` printed `P (%P1. q P1)` where P1 is a constant)"},
-    {"status": "fixed", "key": "memo-history:nested-binder-names", "commit": "b9d00cb",
+    {"status": "fixed", "key": "memo-history:nested-binder-names", "commit": "0e669fb",
      "what": "the printer memo key contained only the names of outermost binders: after printing `!x. ?y. R x y`, the alpha-variant `!x. ?z. R x z` printed as the former"},
-    {"status": "fixed", "key": "memo-theory-history", "commit": "a8b0ec8",
+    {"status": "fixed", "key": "memo-theory-history", "commit": "6ff5f42",
      "what": "the printer memo survived a change of theory: after load_theory('set') f (%P1. P1) printed 'f (%P1. P1)'; after set_context('hoare') "
              "(P1 is a constant there) the cached text was returned and did not parse; a fresh table prints 'f (%P11. P11)'"},
-    {"status": "fixed", "key": "roundtrip:non-canonical-binary", "commit": "dd063ea",
+    {"status": "fixed", "key": "roundtrip:non-canonical-binary", "commit": "2b17665",
      "what": "of_nat (bit0 (bit1 zero)) :: real printed as (2::real), which parses to of_nat (bit0 one): binary numerals with leading zero bits "
              "(also inside Char) were printed as literals"},
-    {"status": "fixed", "key": "print-raises:many-annotations", "commit": "f5a1afe",
+    {"status": "fixed", "key": "print-raises:many-annotations", "commit": "e7ee29e",
      "what": "infer_printed_type gave up after 99 annotations: a conjunction of 101 copies of ([]::'a list) = [] raised AssertionError"},
-    {"status": "fixed", "key": "roundtrip:char-underscore", "commit": "fcbe548",
+    {"status": "fixed", "key": "roundtrip:char-underscore", "commit": "a3a8eb2",
      "what": "Char 95 prints as '_' and parse_term(\"'_'\") raised TypeError (the anonymous token \"_\" is filtered out of the parse tree)"},
-    {"status": "fixed", "key": "item-roundtrip:inst-tyinst", "commit": "bff492c",
+    {"status": "fixed", "key": "item-roundtrip:inst-tyinst", "commit": "0164f1f",
      "what": "export_proof_item dropped the type part (Inst.tyinst) of an instantiation; it is now written {'a: T, x: t} and read back by parse_inst"},
-    {"status": "fixed", "key": "roundtrip:char-string-literal", "commit": "31716be",
+    {"status": "fixed", "key": "roundtrip:char-string-literal", "commit": "61daea9",
      "what": "characters/strings outside the grammar's literal syntax (`Char 32`, the empty string, \"a b\") were printed as quoted literals that do not parse"},
 ]
